@@ -242,7 +242,10 @@ type DB struct {
 	// OnCommitted is called after every successful commit with the new
 	// state.
 	OnCommitted func(s Snapshot)
-	commits     int
+	// OnBegin, when set, is called at the start of every transaction
+	// (a scheduling point for the cooperative scheduler).
+	OnBegin func(write bool)
+	commits int
 }
 
 const rootID = 1
@@ -289,6 +292,9 @@ type tx struct {
 func (d *DB) begin(w bool) (*tx, error) {
 	if d.closed {
 		return nil, walletdb.ErrDbNotOpen
+	}
+	if d.OnBegin != nil {
+		d.OnBegin(w)
 	}
 	if w {
 		d.mu.Lock()
